@@ -378,6 +378,74 @@ subroutine k(n, s)
 end subroutine k
 """.replace('@Q', chr(34)), 'k')
 
+add('select-case-default-not-last', """
+subroutine k(n, i1, s)
+  integer, intent(in) :: n, i1
+  real, intent(inout) :: s
+  select case (i1)
+  case (1)
+    s = 1.0
+  case default
+    s = -1.0
+  case (2:3)
+    s = 2.0
+  case (4)
+    s = s + 4.0
+  end select
+  select case (i1 + n)
+  case default
+    s = s*2.0
+  case (:0)
+    s = s - 0.5
+  case (5)
+    s = s + 0.25
+  end select
+end subroutine k
+""", 'k')
+
+add('else-branch-with-nested-else-if-chain', """
+subroutine k(n, a, s)
+  integer, intent(in) :: n
+  integer, intent(inout) :: a(n)
+  integer, intent(inout) :: s
+  integer :: i
+  if (s > 3) then
+    s = 0
+  else   ! keep small values
+    if (s < 0) then
+      s = -s
+    else if (s == 1) then
+      s = 5
+    else if (s == 2) then
+      s = 7
+    end if
+  endif
+  do i=1,n
+    if (a(i) > 2) then
+      a(i) = 1
+    else
+      if (a(i) > 0) then
+        a(i) = 2
+      else if (a(i) < -1) then
+        a(i) = 3
+      else
+        a(i) = s
+      end if
+      s = s + 1
+    end if
+  end do
+  if (a(1) > 1) then
+    a(1) = 0
+  else
+    if (a(n) == 3) then
+      a(n) = s
+    elseif (a(n) == 2) then
+      a(n) = 1
+    end if
+  endif
+end subroutine k
+""", 'k')
+
 add('named-exit-cycle(frontend-limit)', """
 subroutine k(n, a, t)
   integer, intent(in) :: n
